@@ -478,3 +478,53 @@ func copySpare(src, dst reflect.Value) {
 // SetOpVal replaces the decoded record of an add op (used by harness phases
 // that share record values between instances).
 func (o *Op) SetVal(v interface{}) { o.val = v }
+
+// WithString returns a copy of struct value rec whose string field name is s.
+func WithString(rec interface{}, name, s string) interface{} {
+	v := reflect.New(reflect.TypeOf(rec)).Elem()
+	v.Set(reflect.ValueOf(rec))
+	v.FieldByName(name).SetString(s)
+	return v.Interface()
+}
+
+// ConvertRecs re-expresses records as values of struct type t: fields are
+// matched by name at every level (the two types declare the same fields in a
+// different order). It panics when a field has no counterpart.
+func ConvertRecs(recs []interface{}, t reflect.Type) []interface{} {
+	out := make([]interface{}, len(recs))
+	for i, r := range recs {
+		v := reflect.New(t).Elem()
+		convertVal(reflect.ValueOf(r), v)
+		out[i] = v.Interface()
+	}
+	return out
+}
+
+func convertVal(src, dst reflect.Value) {
+	switch dst.Kind() {
+	case reflect.Struct:
+		for i := 0; i < dst.NumField(); i++ {
+			f := src.FieldByName(dst.Type().Field(i).Name)
+			if !f.IsValid() {
+				panic("ConvertRecs: no field " + dst.Type().Field(i).Name)
+			}
+			convertVal(f, dst.Field(i))
+		}
+	case reflect.Ptr:
+		if src.IsNil() {
+			return
+		}
+		dst.Set(reflect.New(dst.Type().Elem()))
+		convertVal(src.Elem(), dst.Elem())
+	case reflect.Slice:
+		if src.IsNil() {
+			return
+		}
+		dst.Set(reflect.MakeSlice(dst.Type(), src.Len(), src.Len()))
+		for i := 0; i < src.Len(); i++ {
+			convertVal(src.Index(i), dst.Index(i))
+		}
+	default:
+		dst.Set(src.Convert(dst.Type()))
+	}
+}
